@@ -10,6 +10,7 @@ from .. import cfgdom as G
 from .. import pdadom as P
 from .. import rxdom as X
 from . import c16
+from .. import c20nx
 from ..core import CaseResult, outcome, case_key
 
 ID = "C20"
@@ -180,7 +181,7 @@ def generate(rng, tier):
         if "S" not in [h for h, _ in lines]:
             lines.append(["S", "a"])
         toks = [gen_token(rng) for _ in range(4)]
-        yield {"fa": fa, "pda": pda, "fst": fst, "g": g, "ebnf": lines, "toks": toks}
+        yield {"fa": fa, "pda": pda, "fst": fst, "g": g, "ebnf": lines, "toks": toks, "nx": c20nx.gen(rng)}
 
 
 def run_case(case, drv):
@@ -296,4 +297,7 @@ def run_case(case, drv):
         res.evals += 1
         if not e["equiv"] or rsa.get_number_boxes() != 1:
             res.violation("from_regex", "the single box does not accept the regex", detail={"regex": b0})
+    # ---- networkx export / import against the Lean model (names coinciding with decoration nodes included) ----
+    if "nx" in case:
+        c20nx.run(case["nx"], drv, res)
     return res
